@@ -24,6 +24,8 @@ pub enum QClass {
 #[derive(Clone, Debug, Serialize, Deserialize)]
 pub enum Item {
     Query { text: Vec<u8>, class: QClass },
+    /// a plain query of `len` printable pattern bytes (kept symbolic)
+    BigQuery { seed: u32, len: usize },
     Prepare { text: Vec<u8>, reply: Option<(u32, usize)> },
     Execute { id: u32 },
     LongData { id: u32, data: Vec<u8> },
@@ -211,6 +213,34 @@ impl Prop for C02 {
         let eintr_at = if g.chance(1, 4) { Some(g.usize_in(1, 80)) } else { None };
         Case { items, chunks, eintr_at }
     }
+    fn fixed(&self, tier: Tier) -> Vec<Case> {
+        // arbitrary text includes long text: a query of several wire packets between ordinary
+        // commands, delivered in reads that are much shorter than the command
+        let mut v = Vec::new();
+        let lens: &[usize] = match tier {
+            Tier::Quick => &[40_000_000],
+            Tier::Thorough => &[17_000_000, 33_554_440, 40_000_000, 52_000_000],
+        };
+        for (i, &len) in lens.iter().enumerate() {
+            for &chunk in &[1usize << 20, 65_536 * 3 + 1] {
+                v.push(Case {
+                    items: vec![
+                        Item::Query { text: b"SELECT 1".to_vec(), class: QClass::Plain },
+                        Item::BigQuery { seed: i as u32 + 1, len },
+                        Item::Query { text: b"SELECT 2".to_vec(), class: QClass::Plain },
+                        Item::InitDb { name: b"after".to_vec() },
+                        Item::Quit,
+                    ],
+                    chunks: vec![chunk],
+                    eintr_at: None,
+                });
+                if tier == Tier::Quick {
+                    break;
+                }
+            }
+        }
+        v
+    }
     fn exec(&self, case: &Case) -> Exec {
         let mut ex = Exec::default();
         // conversation + model
@@ -261,6 +291,17 @@ impl Prop for C02 {
                             ex.nontrivial = true;
                             accepts.push(Accept::GreyQuery(t))
                         }
+                    }
+                }
+                Item::BigQuery { seed, len } => {
+                    kinds_seen.insert("query");
+                    ex.class("multi-packet-query");
+                    ex.nontrivial = true;
+                    cmds.push(Cmd::Query { text: Blob::Text { seed: *seed, len: *len } });
+                    if ended {
+                        accepts.push(Accept::Nothing);
+                    } else {
+                        accepts.push(Accept::Exactly(Event::Query(String::from_utf8(Blob::Text { seed: *seed, len: *len }.bytes()).unwrap())));
                     }
                 }
                 Item::Prepare { text, reply } => {
@@ -350,6 +391,7 @@ impl Prop for C02 {
                         live.insert(*id);
                     }
                     Item::Prepare { text, .. } | Item::Query { text, .. } if std::str::from_utf8(text).is_err() => break,
+                    Item::BigQuery { .. } => {}
                     Item::InitDb { name } if std::str::from_utf8(name).is_err() => break,
                     Item::Close { id } => {
                         live.remove(id);
